@@ -203,7 +203,20 @@ async def _main(case, obs, loop, net):
             lg = case["logs"][lgi]
             e["fn"] = (lambda lg=lg, spec=e["spec"]: install_batches(c.log(lg["topic"], lg["partition"]), [spec],
                                                                      c.now_ms()))
+        elif e["ev"] == "trim":
+            # retention / DeleteRecords: the log start moves up (never past the high watermark)
+            e = dict(e)
+            e["ev"] = "call"
+            lg = case["logs"][e["log"] % len(case["logs"])]
+
+            def trim(lg=lg, frac=e["frac"]):
+                pl = c.log(lg["topic"], lg["partition"])
+                top = min(pl.hw, pl.lso)
+                pl.log_start = max(pl.log_start, min(top, pl.log_start + int(frac * (top - pl.log_start) + 0.5)))
+            e["fn"] = trim
         env.append(e)
+    obs.initial_log_start = {tpk(lg["topic"], lg["partition"]): c.log(lg["topic"], lg["partition"]).log_start
+                             for lg in case["logs"]}
     c.schedule(env)
     kw = dict(bootstrap_servers=c.bootstrap(), group_id=cfg.get("group_id"),
               session_timeout_ms=cfg.get("session_timeout_ms", 3000), heartbeat_interval_ms=cfg.get("heartbeat_interval_ms", 300),
@@ -266,6 +279,13 @@ async def _main(case, obs, loop, net):
                     ev["tp"] = tpk(*tp)
                     ev["t"] = loop._vtime
                     obs.events.append(ev)
+                    continue
+                if kind == "trim":
+                    tp = tps[op[1] % len(tps)]
+                    pl = c.log(tp.topic, tp.partition)
+                    top = min(pl.hw, pl.lso)
+                    pl.log_start = max(pl.log_start, min(top, pl.log_start + int(op[2] * (top - pl.log_start) + 0.5)))
+                    c.fault_log.append((loop._vtime, {"ev": "trim", "tp": tpk(*tp), "log_start": pl.log_start}, None))
                     continue
                 if kind == "getone":
                     parts = sel(op[1])
@@ -351,10 +371,21 @@ async def _main(case, obs, loop, net):
     deadline = loop._vtime + bound
     want = case.get("drain_hint")
     idle = 0
+    idle_from = 0
+    idle_cap = 6 + int((case["cfg"].get("metadata_max_age_ms", 5000) / 1000.0 + 2.0) / 0.2)
     while loop._vtime < deadline:
-        ev = {"op": "getmany", "task": -1, "t_call": loop._vtime, "filter": [], "max_records": None, "drain": True}
+        how = case.get("drain", "getmany")
+        ev = {"op": how, "task": -1, "t_call": loop._vtime, "filter": [], "max_records": None, "drain": True}
         try:
-            res = await consumer.getmany(timeout_ms=200)
+            if how == "getone":
+                # the application reads one record at a time (the `async for` style)
+                try:
+                    m = await asyncio.wait_for(consumer.getone(), 0.2)
+                    res = {TopicPartition(m.topic, m.partition): [m]}
+                except asyncio.TimeoutError:
+                    res = {}
+            else:
+                res = await consumer.getmany(timeout_ms=200)
         except Exception as e:
             ev["error"] = (type(e).__name__, repr(e))
             ev["unexpected"] = not isinstance(e, KafkaError)
@@ -372,7 +403,15 @@ async def _main(case, obs, loop, net):
         obs.events.append(ev)
         if not ev["records"]:
             idle += 1
+            if idle == 1:
+                idle_from = len(c.arrivals)
             if idle >= 6 and case.get("drain_stop_idle", True):
+                # idle only counts as "drained" when the brokers were quiet as well: a client that is still being
+                # answered with errors (e.g. ListOffsets at a stale leader until the next metadata refresh) is
+                # recovering, not finished
+                if idle < idle_cap and any(_reply_has_error(a.reply) or a.fault for a in c.arrivals[idle_from:]):
+                    idle_from = len(c.arrivals)
+                    continue
                 break
         else:
             idle = 0
@@ -394,6 +433,19 @@ async def _main(case, obs, loop, net):
         obs.stop_error = repr(stop_task.exception())
     else:
         obs.stop_returned = loop._vtime
+
+
+def _reply_has_error(r):
+    if isinstance(r, dict):
+        for k, v in r.items():
+            if k == "error":
+                if isinstance(v, int) and v != 0:
+                    return True
+            elif isinstance(v, (dict, list)) and _reply_has_error(v):
+                return True
+    elif isinstance(r, list):
+        return any(_reply_has_error(x) for x in r)
+    return False
 
 
 def run(case):
@@ -433,12 +485,16 @@ def check_delivery(case, obs, out, isolation, initial_pos=None, check_drain=True
     vis = {}
     for key, f in obs.final.items():
         bound = f["lso"] if isolation == "read_committed" else f["hw"]
-        vis[key] = [x for x in visible_records(f["decoded"], isolation, bound) if x[0] >= f["log_start"]]
+        lo0 = getattr(obs, "initial_log_start", {}).get(key, f["log_start"])
+        vis[key] = [x for x in visible_records(f["decoded"], isolation, bound) if x[0] >= lo0]
+    # records below the final log start were removed by retention while the consumer ran: it may have delivered
+    # them before that, and it may skip the ones it had not reached (out of range -> earliest), never anything else
+    trimmed_below = {key: f["log_start"] for key, f in obs.final.items()}
     pos = {}
     paused = set()
     for t, p in obs.consumer_tps:
         k = tpk(t, p)
-        pos[k] = (initial_pos or {}).get(k, obs.final[k]["log_start"])
+        pos[k] = (initial_pos or {}).get(k, getattr(obs, "initial_log_start", {}).get(k, obs.final[k]["log_start"]))
 
     def next_visible(k, p):
         for x in vis[k]:
@@ -464,7 +520,7 @@ def check_delivery(case, obs, out, isolation, initial_pos=None, check_drain=True
             k = ev["tp"]
             if ev.get("position") is None:
                 continue
-            nv = next_visible(k, pos[k])
+            nv = next_visible(k, max(pos[k], trimmed_below[k]))
             hi = nv[0] if nv is not None else max(obs.final[k]["end"], pos[k])
             if not (pos[k] <= ev["position"] <= hi):
                 out.fail("position_bounds", "behind" if ev["position"] < pos[k] else "ahead",
@@ -486,6 +542,11 @@ def check_delivery(case, obs, out, isolation, initial_pos=None, check_drain=True
                     out.fail("paused_silent", "record_from_paused_partition", {"tp": k, "event": _short(ev)})
                 for r in recs:
                     nv = next_visible(k, pos[k])
+                    if nv is not None and nv[0] < r["offset"] and \
+                            all(x[0] < trimmed_below[k] for x in vis[k] if pos[k] <= x[0] < r["offset"]):
+                        # the records skipped were all removed by retention before the consumer reached them
+                        out.label("skipped_records_removed_by_retention")
+                        nv = next_visible(k, r["offset"])
                     if nv is None or nv[0] != r["offset"]:
                         kind = "unexpected_record"
                         if nv is not None and r["offset"] > nv[0]:
@@ -514,7 +575,7 @@ def check_delivery(case, obs, out, isolation, initial_pos=None, check_drain=True
                     pos[k] = r["offset"] + 1
     if check_drain and not obs.deadlock:
         for k in pos:
-            nv = next_visible(k, pos[k])
+            nv = next_visible(k, max(pos[k], trimmed_below[k]))
             if nv is not None:
                 out.fail("drains", "visible_records_left", {"tp": k, "model_pos": pos[k], "next_visible": nv[0],
                                                             "end": obs.final[k]["end"], "bound": obs.bound})
